@@ -101,7 +101,8 @@ pub fn run(t: &[&str]) -> String {
             "reg_bytes" => ok1(hex(raw(&api, t[1], t[2]).as_bytes())),
             "reg_key" => ok1(hex(&pair_key(&[raw(&api, t[1], t[2]), raw(&api, t[3], t[4])]))),
             // reg_walk L n entries...
-            "reg_walk" => {
+            // reg_walk_sw: the same walk by a client that hands the last pair back with its two assets in the other order
+            "reg_walk" | "reg_walk_sw" => {
                 let limit: Option<u32> = if t[1] == "-" { None } else { Some(t[1].parse().unwrap()) };
                 let n: usize = t[2].parse().unwrap();
                 let (mut st, _) = build(&api, &t[3..], n);
@@ -122,7 +123,12 @@ pub fn run(t: &[&str]) -> String {
                         out.push(index_of(p) as u64);
                     }
                     out.push(SEP);
-                    cursor = Some(page.last().unwrap().asset_infos.clone());
+                    let last = page.last().unwrap().asset_infos.clone();
+                    cursor = Some(if t[0] == "reg_walk_sw" {
+                        [last[1].clone(), last[0].clone()]
+                    } else {
+                        last
+                    });
                     pages += 1;
                     if pages > 200 {
                         out.push(LOOP);
